@@ -133,6 +133,10 @@ func runC07(p *core.Prog, r *core.Report) {
 	c03R4(p, r, "C07.R9")
 	// the collector cannot run under a copy: the lock count of a running copy is never dropped with the bookkeeping entry (shared with C08.R2)
 	c08R2(p, r, "C07.R10")
+	// parts of a tagged image are removed only by an explicit delete or by the sweep (shared with C08.R11)
+	whoMayRemoveRule(p, r, "C07.R11")
+	// the collector walks everything a tag reaches (shared with C08.R4)
+	c08R4(p, r, "C07.R12")
 }
 
 // ---------------------------------------------------------------------------------------------
